@@ -208,7 +208,7 @@ func emitUniCases(c *Ctx, w *LeanFile, p *Pkg) error {
 	}
 	fl := newFlow(p)
 	type outcome struct {
-		flag, closeCode, cancelCode string
+		flag, closeCode, cancelCode     string
 		flagSeen, closeSeen, cancelSeen bool
 	}
 	run := func(stmts []ast.Stmt, rest []ast.Stmt, isServer bool) outcome {
